@@ -9,6 +9,7 @@ import (
 	"strconv"
 	"strings"
 	"sync/atomic"
+	"syscall"
 	"testing"
 	"time"
 )
@@ -82,8 +83,13 @@ var watchdogInfo atomic.Value
 
 func startWatchdog() {
 	go func() {
+		// a thread-locked blocking nanosleep instead of a Go timer: timer wake-ups of an extra goroutine
+		// can take the scheduler's run-next slot in the middle of a burst inside a bubble and perturb
+		// the (otherwise stable) order in which just-woken goroutines run
+		runtime.LockOSThread()
 		for {
-			time.Sleep(500 * time.Millisecond)
+			ts := syscall.Timespec{Sec: 2}
+			_ = syscall.Nanosleep(&ts, nil)
 			d := watchdogDeadline.Load()
 			if d != 0 && time.Now().UnixNano() > d {
 				info, _ := watchdogInfo.Load().(string)
